@@ -10,7 +10,9 @@ import zlib
 
 from . import common, tlaval
 
-DISABLE_SPELLINGS = ['DISABLE_DOCTEST', 'SCRIPT', 'UNSTABLE', 'FAILING', 'SLOW_DOCTEST']
+# the force-disable markers are matched case-insensitively, as a prefix, with any blanks around the '#'
+DISABLE_SPELLINGS = ['DISABLE_DOCTEST', 'SCRIPT', 'UNSTABLE', 'FAILING', 'SLOW_DOCTEST', 'disable_doctest', 'Script: needs a display', 'unstable on slow machines',
+                     'Failing', 'slow_doctest', ' DISABLE_DOCTEST', 'DISABLED']
 
 HEADER = 'from harness.runlib import make_namespace as _mk\nT = []\nglobals().update(_mk(T))\nG = 1\n'
 
